@@ -68,13 +68,21 @@ def escape_unescape_identity_len2(s: str) -> bool:
     return unescape_json_string(escape_json_string(s)) == s and json.loads('"' + escape_json_string(s) + '"') == s or any(chr(0xD800) <= c <= chr(0xDFFF) for c in s)
 
 
-@ob(budget=60, tbudget=600, kind='hunt', bound='a, b integers in [-10^6, 10^6], s string of length <= 2: parse-json(serialize(v, json)) = v for scalar, array and map shapes (bug-hunting)',
+_SPR_S = ('', 'a', '"', chr(92), '/', '\u00e9', 'a"b', chr(92) + '"', '</', ' ', '\u20ac/')
+_SPR_A = (-10 ** 6, -1, 0, 1, 7, 10 ** 6)
+
+
+@ob(budget=200, bound='s from a table of 11 strings (empty, quote, backslash, solidus, non-ASCII, mixtures) and a from {-10^6, -1, 0, 1, 7, 10^6} (indices chosen by the '
+                      'solver, values concrete on each path - symbolic text does not pass CrossHair\'s json model): parse-json(serialize(v, json)) = v for a string and '
+                      'for a map with a number and an array member',
     funcs=['elementpath/serialization.py:serialize_to_json', 'elementpath/xpath31/_xpath31_functions.py:parse-json'])
-def serialize_parse_roundtrip(a: int, b: int, s: str) -> bool:
+def serialize_parse_roundtrip(ai: int, si: int) -> bool:
     """
-    pre: -10**6 <= a <= 10**6 and -10**6 <= b <= 10**6 and len(s) <= 2 and all(' ' <= c <= '~' for c in s)
+    pre: 0 <= ai <= 5 and 0 <= si <= 10
     post: _
     """
+    a = _SPR_A[[k for k in range(6) if k == ai][0]]
+    s = _SPR_S[[k for k in range(11) if k == si][0]]
     return ev(T['ser_str'], s=s) == [s] and ev(T['ser_map'], a=a, s=s) == [float(a)]
 
 
